@@ -1,4 +1,5 @@
 import ZmqVerif.Lemmas.WorldMaps
+import ZmqVerif.Lemmas.WorldSendStart
 import ZmqVerif.Lemmas.WorldSend
 /-!
 # C10 — round-robin senders deliver each message to exactly one peer, in rotation
@@ -158,5 +159,24 @@ theorem C10_world_send_env {w : World} {sid : Nat} {k : Ident} {p : Nat} {base e
     (h : SendInv w sid k p base enc st) (w' : World) (hs : getSock w' sid = getSock w sid)
     (hw : (wOf w'.pipes p).wire = (wOf w.pipes p).wire) : SendInv w' sid k p base enc st :=
   h.env w' hs hw
+
+/-- **`send_round_robin` (PUSH, DEALER), first poll, against the wires**: entries of vanished peers are skipped; with no
+live peer the message is handed back intact and NOTHING is written; otherwise exactly one registered peer is chosen
+and the send is in progress to it with the encoding of the message, unchanged. -/
+theorem C10_world_rr_start (fuel : Nat) (w : World) (sid : Nat) (m : Msg) (s : Socket) (hs : getSock w sid = some s)
+    (w' : World) (f' : FutSt) (o : POut) (h : sendRRPoll fuel w sid m none = (w', f', o)) :
+    match (generalizing := false) f', o with
+    | .sendRR _ _ (some (k, st)), .pending =>
+        ∃ wr, ilookup s.peers k = some wr ∧
+          SendInv w' sid k wr.pipe (outOf w.pipes wr) (encodeMsg m) st ∧
+          ∀ j, j ≠ wr.pipe → wOf w'.pipes j = wOf w.pipes j
+    | _, .ready .okUnit =>
+        ∃ k wr, ilookup s.peers k = some wr ∧
+          (wOf w'.pipes wr.pipe).wire = outOf w.pipes wr ++ encodeMsg m ∧
+          ∀ j, j ≠ wr.pipe → wOf w'.pipes j = wOf w.pipes j
+    | _, .ready (.errReturn m') => m' = m ∧ ∀ j, wOf w'.pipes j = wOf w.pipes j
+    | _, .ready (.err _) => True
+    | _, _ => False :=
+  sendRRStart_spec fuel w sid m s hs w' f' o h
 
 end Zmq.C10
